@@ -25,8 +25,9 @@ pub fn run_case(id: &str, r: &mut Rng, out: &mut String) {
     let reference = app::run_app(&c.rows, &[], &inits);
     let Ok(Ok(by_sec)) = &reference else { return };
     let n_err = by_sec.values().filter(|d| d.0.is_err()).count();
-    if n_err == 0 {
-        return; // only cases with a rejected security
+    // cases without a rejected security are kept for the render comparison only (every 4th)
+    if n_err == 0 && !r.chance(25) {
+        return;
     }
     out.push_str(&format!("case {} errvis secs={} nerr={}\n", id, by_sec.len(), n_err));
     // render model (as the web UI gets it), full values
@@ -111,6 +112,38 @@ pub fn run_case(id: &str, r: &mut Rng, out: &mut String) {
                     "vis {} model={} text={} csv={} rows_model={} rows_ledger={} names_date={}\n",
                     app::sec_num(s), in_model as u8, in_text as u8, in_csv as u8, rows_model, shown, names_date as u8
                 ));
+            }
+        }
+    }
+    // the report shows the ledger's figures: per row, the "New ACB" and "Cap. Gain" cells of the
+    // render model (full values) are the delta's cost base and capital gain
+    let money = |cell: &str| -> Option<Decimal> {
+        let tok = cell.split(|ch: char| ch.is_whitespace()).next().unwrap_or("");
+        let t = tok.replace('$', "").replace(',', "").replace('+', "");
+        if t == "-" || t.is_empty() { None } else { t.parse::<Decimal>().ok() }
+    };
+    for s in &secs {
+        let deltas = by_sec[*s].deltas_or_partial_deltas();
+        if let Some(t) = model.security_tables.get(*s) {
+            let col = |name: &str| t.header.iter().position(|h| h == name);
+            if let (Some(c_acb), Some(c_gain)) = (col("New ACB"), col("Cap. Gain")) {
+                for (i, d) in deltas.iter().enumerate() {
+                    let Some(row) = t.rows.get(i) else { break };
+                    let want_acb = d.post_status.total_acb.map(|a| *a);
+                    let got_acb = money(&row[c_acb]);
+                    let close = |a: Option<Decimal>, b: Option<Decimal>| match (a, b) {
+                        (None, None) => true,
+                        (Some(x), Some(y)) => (x - y).abs() <= Decimal::new(1, 9) || ((x - y).abs() / x.abs().max(Decimal::ONE)) <= Decimal::new(1, 20),
+                        _ => false,
+                    };
+                    if !close(want_acb, got_acb) {
+                        out.push_str(&format!("rmis {} {} newacb ledger={} shown={}\n", app::sec_num(s), i, want_acb.map(|x| x.to_string()).unwrap_or("-".into()), oneline(&row[c_acb]).replace(' ', "_")));
+                    }
+                    let got_gain = money(&row[c_gain]);
+                    if !close(d.capital_gain, got_gain) {
+                        out.push_str(&format!("rmis {} {} gain ledger={} shown={}\n", app::sec_num(s), i, d.capital_gain.map(|x| x.to_string()).unwrap_or("-".into()), oneline(&row[c_gain]).replace(' ', "_")));
+                    }
+                }
             }
         }
     }
